@@ -1,12 +1,17 @@
 """C07 — arena-model property (see DESIGN.md §7 C07); theorems in lean/BumpProof/Props/C07.lean"""
 from engines.arena_prop import run_arena_property
 from engines.purefn import run_purefn
+from engines.coll import run_coll, finish_coll_obligation
 
 def run(ctx):
     # size computations that would overflow must be reported as "does not fit", never panic or wrap:
     # the shared align helpers of src/lib.rs against their wide-integer meaning
     run_purefn(ctx, ["lib"], 20000 if ctx.quick() else 400000, oracle_prefixes=("spec_lib",))
-    return run_arena_property(ctx, ["BumpProof.Props.C07", "BumpProof.Props.Hist2@C07"],
+    # collection clause: a failed push/insert/reserve/extend/append/resize (refusing base allocator, full FixedBumpVec,
+    # "capacity overflow" incl. the one in the middle of BumpVec::splice with a lying size_hint) leaves the vector as it was
+    run_coll(ctx, 1 if ctx.quick() else 3, 1, "failing", oracle_props=["C07", "C06", "C08"], label="failing(collections)")
+    finish_coll_obligation(ctx)
+    return run_arena_property(ctx, ["BumpProof.Props.C07", "BumpProof.Props.Hist2@C07", "BumpProof.Props.Targets@C07", "BumpProof.Props.C07Coll"],
         runs_quick=[('faults', 200, 100)],
         runs_thorough=[('faults', 8000, 200), ('ledger', 2000, 200)],
         fields=(0, 1, 6), extra_oracles=('C01','C02','C05','C10'),
